@@ -14,6 +14,17 @@ MAX_TASKS_PER_WORKER = 120   # in-process builds leak a few MB each: recycle the
 
 
 def _worker(conn, base: str) -> None:
+    # Rust panics of the native front end and mypy's INTERNAL ERROR tracebacks go to fd 2: they are recorded as
+    # results ("crash"), the text is noise
+    import os
+    os.environ["RUST_BACKTRACE"] = "0"
+    try:
+        dn = os.open(os.devnull, os.O_WRONLY)
+        os.dup2(dn, 2)
+        os.dup2(dn, 1)
+        os.close(dn)
+    except OSError:
+        pass
     diffwork.init_worker(base)
     done = 0
     while True:
